@@ -239,6 +239,26 @@ def reject_part(ctx, fails):
         args[pos] = ctx.rng.choice([0, -1]) if pos < 2 else -abs(args[pos])
         for f in ('incidence_rate_ratio', 'incidence_rate_difference'):
             must_reject(f, args, 'args')
+    # every NON-EMPTY set of bad positions (a table with two or four negative cells is as invalid as one with a single one), the bad
+    # cells being negative or zero
+    for k in range(1, 5):
+        for positions in itertools.combinations(range(4), k):
+            for bad in (-3, 0):
+                t = [ctx.rng.randint(2, 40) for _ in range(4)]
+                for ppos in positions:
+                    t[ppos] = bad if bad else 0
+                ctx.evaluations += 1
+                ctx.count('reject:%d bad cells' % k)
+                for f in four:
+                    must_reject(f, t, 'table')
+                if positions == (2, 3) or positions == (0, 1) or k == 1:
+                    args = [ctx.rng.randint(2, 40), ctx.rng.randint(2, 40), ctx.rng.uniform(1, 100), ctx.rng.uniform(1, 100)]
+                    # event counts: negative or zero; person-time: negative (the documented guard on person-time is non-negativity,
+                    # a person-time of exactly 0 is not a cell count and is not judged here)
+                    for ppos in positions:
+                        args[ppos] = (bad if bad else 0) if ppos < 2 else -abs(args[ppos])
+                    for f in ('incidence_rate_ratio', 'incidence_rate_difference'):
+                        must_reject(f, args, 'args')
     # every position of the bad cell x every arrangement of small (sparse-table) and large valid cells around it
     for pos in range(4):
         for bad in (0, -2):
@@ -350,7 +370,7 @@ def run_frame(fr):
     out = {}
     snap = df.copy(deep=True)
     for cls, cols, time in (('RiskRatio', ['RiskRatio', 'SD(RR)', 'RR_LCL', 'RR_UCL', 'Risk', 'SD(Risk)'], False),
-                            ('RiskDifference', ['RiskDifference', 'SD(RD)', 'RD_LCL', 'RD_UCL'], False),
+                            ('RiskDifference', ['RiskDifference', 'SD(RD)', 'RD_LCL', 'RD_UCL', 'LowerBound', 'UpperBound'], False),
                             ('OddsRatio', ['OddsRatio', 'SD(OR)', 'OR_LCL', 'OR_UCL'], False),
                             ('NNT', ['NNT', 'SD(RD)', 'NNT_LCL', 'NNT_UCL'], False),
                             ('IncidenceRateRatio', ['IncRateRatio', 'SD(IRR)', 'IRR_LCL', 'IRR_UCL', 'IncRate', 'SD(IncRate)'], True),
@@ -457,6 +477,16 @@ def frame_part_list(ctx, fails, frames):
                     continue
                 if cls != 'NNT' and not limits_ok([got[0], got[2], got[3], got[1]], fr['alpha'], cls in ('RiskRatio', 'OddsRatio', 'IncidenceRateRatio')):
                     fails.append((size, 'base.%s.ci' % cls, '%s limits are not est -/+ z*SE at alpha=%g' % (cls, fr['alpha']), payload))
+                if cls == 'RiskDifference' and len(got) >= 6 and got[4] is not None:
+                    # the no-assumption bounds of a level: r1*p - r0*(1-p) - p and r1*p + (1-p) - r0*(1-p), p = (a+b)/n with n the rows
+                    # observed on exposure AND outcome -- rows missing either (or both) are not data of this table
+                    ncomp = sum(1 for rw in fr['rows'] if rw[0] is not None and rw[1] is not None)
+                    pe = (m[0] + m[1]) / ncomp
+                    r1_, r0_ = m[0] / (m[0] + m[1]), m[2] / (m[2] + m[3])
+                    lo_, hi_ = r1_ * pe - r0_ * (1 - pe) - pe, r1_ * pe + (1 - pe) - r0_ * (1 - pe)
+                    if not (close(got[4], lo_, TOL_ARITH) and close(got[5], hi_, TOL_ARITH)):
+                        fails.append((size, 'base.RiskDifference.bounds', 'RiskDifference level %r vs reference %r: LowerBound/UpperBound %r/%r, from the '
+                                      'cross-tabulation of the %d complete rows %s/%s' % (l, fr['ref'], got[4], got[5], ncomp, lo_, hi_), payload))
                 if cls == 'RiskRatio' and not (close(got[4], m[12], TOL_ARITH) and close(got[5] ** 2, m[13], TOL_ARITH)):
                     fails.append((size, 'base.RiskRatio.risk', 'Risk / SD(Risk) column differs from a/(a+b)', payload))
                 if cls == 'IncidenceRateRatio' and not (close(got[4], q[8], TOL_ARITH) and close(got[5] ** 2, q[9], TOL_ARITH)):
